@@ -47,6 +47,13 @@ func (h *EthHeader) Hash() (hash common.Hash) {
 }
 
 func (h Header) ValidateBasic() error {
+	// Difficulty and base fee are decimal strings; the conversions below rely on them being numbers
+	if _, ok := new(big.Int).SetString(h.Difficulty, 10); !ok {
+		return errorsmod.Wrap(ErrInvalidDifficulty, "header Difficulty is not a number")
+	}
+	if _, ok := new(big.Int).SetString(h.BaseFee, 10); !ok {
+		return errorsmod.Wrap(ErrHeader, "header BaseFee is not a number")
+	}
 	// Ensure that the header's extra-data section is of a reasonable size
 	if uint64(len(h.Extra)) > params.MaximumExtraDataSize {
 		return fmt.Errorf("extra-data too long: %d > %d", len(h.Extra), params.MaximumExtraDataSize)
